@@ -84,6 +84,8 @@ typedef void (*vh_release_cb) (const void *p, size_t n, int kind);
 extern vh_release_cb vh_on_release;  /* called before free/munmap/realloc of a ledger block */
 typedef void (*vh_request_cb) (int kind, size_t n);
 extern vh_request_cb vh_on_request;  /* called when the library asks the allocator for memory (malloc/calloc 'm', realloc 'r'), before the answer */
+typedef void (*vh_map_cb) (int kind, void *addr, size_t len);
+extern vh_map_cb vh_on_map;          /* 'M' after every successful mmap, 'U' before every munmap (armed or not) */
 struct vh_blk { void *p; size_t n; int kind; int live; int by_lib; };
 extern struct vh_blk vh_ledger[512];
 extern int vh_nledger;
